@@ -2,10 +2,10 @@
 # tools/collect_seed.sh <Cxx> [suffix]: re-verify a sub-agent's change in its scratch worktree and copy it to /verif/seeded/M_<Cxx><suffix>
 # (development aid) - checks: patch applies to a clean tree, demo fails with it and passes without, stable baseline passes with it.
 set -u
-P=$1; SUF=${2:-}; W=/tmp/mut_$P; D=/verif/seeded/M_$P$SUF
+P=$1; SUF=${2:-}; W=${3:-/tmp/mut_$P}; D=/verif/seeded/M_$P$SUF
 cd $W || exit 2
 test -f _seeded/patch.diff || { echo "no patch"; exit 2; }
-git stash -q 2>/dev/null; git checkout -q -- . ; git status --short | grep -v "^??" 
+git checkout -q -- . ; git status --short | grep -v "^??"
 /venv/bin/python _seeded/demo.py > /tmp/demo_clean.log 2>&1; RC0=$?
 git apply _seeded/patch.diff || { echo "patch does not apply"; exit 2; }
 /venv/bin/python _seeded/demo.py > /tmp/demo_mut.log 2>&1; RC1=$?
